@@ -68,8 +68,22 @@ type timedOp struct {
 	maxTime time.Duration
 }
 
+// c16SubCtx, when set, is the context the case subscribes with (cancellation cases).
+var c16SubCtx context.Context
+
+//go:norace
+func c16GetCtx() context.Context { return c16SubCtx }
+
+//go:norace
+func c16SetCtx(c context.Context) { c16SubCtx = c }
+
 func subTyped[T any](o ro.Observable[T]) func(rec *h.Rec) ro.Subscription {
-	return func(rec *h.Rec) ro.Subscription { return o.Subscribe(h.Observer[T](rec)) }
+	return func(rec *h.Rec) ro.Subscription {
+		if c := c16GetCtx(); c != nil {
+			return o.SubscribeWithContext(c, h.Observer[T](rec))
+		}
+		return o.Subscribe(h.Observer[T](rec))
+	}
 }
 
 func ms(ns int64) string { return fmt.Sprintf("%.1fu", float64(ns)/float64(u)) }
@@ -550,11 +564,20 @@ func c16Case(op timedOp, tl []tlItem, cutAt time.Duration, bound int) fw.Case {
 // c16CaseSlow: as c16Case, with an observer whose Next callback takes `slow` of virtual time (a
 // consumer slower than the configured duration keeps the operator busy while its timers run).
 func c16CaseSlow(op timedOp, tl []tlItem, cutAt time.Duration, bound int, slow time.Duration) fw.Case {
+	return c16CaseFull(op, tl, cutAt, bound, slow, false)
+}
+
+// c16CaseFull: with cancel set, the subscription context is cancelled at cutAt instead of the subscription
+// being unsubscribed. Operators are free to ignore the context or to stop; whatever they still deliver must
+// keep the lower bounds (a cancelled pause must not release its value early).
+func c16CaseFull(op timedOp, tl []tlItem, cutAt time.Duration, bound int, slow time.Duration, cancel bool) fw.Case {
 	nm := tlString(tl)
 	if slow > 0 {
 		nm += fmt.Sprintf(" / consumer takes %s per value", ms(int64(slow)))
 	}
-	if cutAt >= 0 {
+	if cutAt >= 0 && cancel {
+		nm += fmt.Sprintf(" / context cancelled@%s", ms(int64(cutAt)))
+	} else if cutAt >= 0 {
 		nm += fmt.Sprintf(" / unsubscribe@%s", ms(int64(cutAt)))
 	}
 	total := time.Duration(0)
@@ -582,6 +605,13 @@ func c16CaseSlow(op timedOp, tl []tlItem, cutAt time.Duration, bound int, slow t
 			o, push := h.Pushed[int](src, h.Unsafe)
 			l.subAt = vrt.NowNS()
 			var sub0 ro.Subscription
+			var cancelCtx context.CancelFunc
+			if cancel {
+				var c context.Context
+				c, cancelCtx = context.WithCancel(context.Background())
+				c16SetCtx(c)
+				defer c16SetCtx(nil)
+			}
 			subscribe := op.build(o, l)
 			if op.blocks {
 				vrt.GoNamed("subscribe", func() { guard(&escaped, "Subscribe", func() { sub0 = subscribe(rec) }) })
@@ -598,7 +628,10 @@ func c16CaseSlow(op timedOp, tl []tlItem, cutAt time.Duration, bound int, slow t
 					}
 				})
 			}
-			if cutAt >= 0 {
+			if cutAt >= 0 && cancel {
+				vrt.HSleep(int64(cutAt))
+				cancelCtx()
+			} else if cutAt >= 0 {
 				vrt.HSleep(int64(cutAt))
 				if sub0 != nil {
 					sub0.Unsubscribe()
@@ -767,6 +800,9 @@ func init() {
 					}
 					for at := time.Duration(0); at <= total+op.d; at += u {
 						c.Explore(c16Case(op, tl, at, bound-1))
+						if !op.creates {
+							c.Explore(c16CaseFull(op, tl, at, bound-1, 0, true))
+						}
 					}
 				}
 			}})
